@@ -2,7 +2,7 @@
 """Prints the markdown table of seeded defects and which check tier detects them (from seeded/*/meta.json + result.json)."""
 import json, os, glob
 V = os.path.dirname(os.path.dirname(os.path.abspath(__file__)))
-tot = {"total": 0, "own_quick": 0, "own_thorough_only": 0, "sibling_only": 0, "missed": 0}
+tot = {"total": 0, "own_quick": 0, "own_thorough_only": 0, "sibling_only": 0, "ruled_out": 0, "missed": 0}
 print("| seeded change | property | what it does | needs, to manifest | detected by |")
 print("|---|---|---|---|---|")
 for d in sorted(glob.glob(os.path.join(V, "seeded", "*"))):
@@ -26,6 +26,8 @@ for d in sorted(glob.glob(os.path.join(V, "seeded", "*"))):
         tot["own_thorough_only"] += 1
     elif any(("-by-" in k) and r[k]["detected"] for k in r):
         tot["sibling_only"] += 1
+    elif "by ruling" in m.get("coordinator_note", "") or "neutralised by the later repair" in m.get("coordinator_note", ""):
+        tot["ruled_out"] += 1
     else:
         tot["missed"] += 1
     note = m.get("coordinator_note", "")
@@ -34,4 +36,4 @@ for d in sorted(glob.glob(os.path.join(V, "seeded", "*"))):
     print("| %s | %s | %s | %s | %s%s |" % (os.path.basename(d), m["property"], clean(m.get("summary", "")), clean(m.get("needs_to_manifest", "")), ", ".join(det), (" — " + note) if note else ""))
 
 print()
-print("Totals: %(total)d seeded changes; %(own_quick)d detected by the quick tier of their own property's check; %(own_thorough_only)d only by its thorough tier; %(sibling_only)d only by another property's check (recorded as quick-by-<ID>); %(missed)d not detected." % tot)
+print("Totals: %(total)d seeded changes; %(own_quick)d detected by the quick tier of their own property's check; %(own_thorough_only)d only by its thorough tier; %(sibling_only)d only by another property's check (recorded as quick-by-<ID>); %(ruled_out)d not reported because, by ruling, they do not (or no longer) break the property (see their note); %(missed)d not detected." % tot)
